@@ -34,7 +34,6 @@ ASSUMPTIONS = [
     'correspondence uses small integers so that all arithmetic is exact where it is compared exactly, otherwise a 2^-21 relative bound)',
     'non-finite pixels (NaN, +-inf) are one value None; images have at least 2 rows and 2 columns in C06_constant / mask_far_finite / '
     'no_blank (single-row / single-column images give all-NaN maps: recorded finding)',
-    'noise finiteness is proved at distance 2*(box/2+grid), the property states box/2+grid (searched on the real code every run)',
     '"equals m and s within sampling error for Gaussian noise" is statistics: validated on one noise image, not proved',
 ]
 
@@ -69,6 +68,14 @@ def gen_pipeline_case(rng, i):
         arr[rng.randrange(rows), rng.randrange(cols)] = np.inf
     if rng.random() < 0.08:
         arr[rng.randrange(rows), :] = np.nan
+    if rng.random() < 0.15:
+        # a blank quadrant / band anchored at a corner of the image (large blank regions make whole boxes blank)
+        y0, x0 = rng.randint(0, rows), rng.randint(0, cols)
+        ys = slice(y0, None) if rng.random() < 0.5 else slice(None, y0)
+        xs = slice(x0, None) if rng.random() < 0.5 else slice(None, x0)
+        if rng.random() < 0.3:
+            xs = slice(None)
+        arr[ys, xs] = np.nan
     # single-row / single-column cubes are squeezed to 1-D by sigma_filter and raise (part of the recorded thin-image finding)
     naxis = rng.choice([2, 2, 2, 3, 4]) if rows > 1 and cols > 1 else 2
     depth = rng.randint(1, 3) if naxis > 2 else 1
